@@ -1,3 +1,12 @@
 import XzVerif.Props.C09
 #print axioms Props.C09.C09_errflow_ok
 #print axioms Props.C09.C09_no_replaced_by_nil
+#print axioms Props.C09.C09_writer2_no_call_panics
+#print axioms Props.C09.C09_writer2_no_call_panics_hashtable4
+#print axioms Props.C09.C09_writer2_no_call_panics_bintree
+#print axioms Props.C09.C09_writer2_failure_surfaces_in_the_same_call
+#print axioms Props.C09.C09_writer2_failure_never_masked
+#print axioms Props.C09.C09_writer2_stored_error_is_final
+#print axioms Props.C09.C09_writer2_success_only_with_valid_stream
+#print axioms Props.C09.C09_writer2_success_only_with_valid_stream_hashtable4
+#print axioms Props.C09.C09_writer2_no_fault_no_difference
